@@ -38,9 +38,9 @@ RULE = (
     "partially created / partially published / partially deleted step directory; distinct = distinct (configuration, resulting tree)"
 )
 BOUNDS = {
-    "quick": {"max_crashes_per_history": "unbounded (fixpoint)", "state_cap_per_config": 20000,
+    "quick": {"max_crashes_per_history": "unbounded (fixpoint)", "state_cap_per_config": 2500,
               "configs": "retrospective (batch,plates,chains,chunks) in {(1,3,1,1),(2,4,1,1),(3,5,1,1),(2,3,2,2)}; prospective (batch,iterations) in {(1,2),(2,2),(3,2)} with (1,1) and (2,2,(2,2))"},
-    "thorough": {"max_crashes_per_history": "unbounded (fixpoint)", "state_cap_per_config": 200000,
+    "thorough": {"max_crashes_per_history": "unbounded (fixpoint)", "state_cap_per_config": 40000,
                  "configs": "batch 1..4 x plates 2..5 x {(1,1),(2,2)} both modes; plus batch 11 / 13 plates (two-digit plate dirs)"},
 }
 ASSUMPTIONS = [
@@ -530,6 +530,9 @@ def explore_config(cfg, col, tier, dag_source):
             col.violation(f"C19|{sig}|{cfg['mode']}", f"{cfg}: {msg}; history {hist}", {"cfg": cfg, "history": hist})
 
         while frontier:
+            if violations_here > 40:
+                col.count("configs_cut_short_after_40_violations")
+                break
             tree, ncrash, hist = frontier.pop(0)
             done_before = complete_steps(tree, ref)
             base = sb.execute(tree, None)
